@@ -99,7 +99,7 @@ func (lifeComp) Exec(op string) (string, string, string, bool) {
 	if closer == "target" {
 		tmode = "source:100:1"
 	}
-	rig, err := NewRig(RigOpts{Carrier: carrier, Channels: map[string]string{"echo": tmode}, Insecure: true, Relay: ending != "none"})
+	rig, err := NewRig(RigOpts{Carrier: carrier, Channels: map[string]string{"echo": tmode}, Insecure: true, Relay: ending == "cut" || ending == "garbage"})
 	if err != nil {
 		return "fail:rig", err.Error(), "fail", false
 	}
@@ -131,6 +131,11 @@ func (lifeComp) Exec(op string) (string, string, string, bool) {
 	switch ending {
 	case "cut":
 		rig.Relay.Cut()
+	case "timeout":
+		// the carrier's Read starts failing with a timeout-class network error (as after ETIMEDOUT)
+		rig.Fault.Fail(timeoutErr{}, rig.faultWake)
+	case "reset":
+		rig.Fault.Fail(syscall.ECONNRESET, rig.faultWake)
 	case "garbage":
 		rig.Relay.Inject([]byte("\xff\xfe\xfd\xfc\xfb\xfa\xf9\xf8\xf7\xf6\xf5\xf4\xf3\xf2\xf1\xf0 this is not a multiplexer frame"))
 	}
@@ -163,6 +168,8 @@ func (lifeComp) Gen(r *Rand, tier string, emit func(string)) {
 	}
 	emit("tcp 25 refused none")
 	emit("ws 25 refused none")
+	emit("stdio 10 app timeout")
+	emit("stdio 10 app reset")
 	emit("tcp 10 app cut")
 	emit("tcptls 10 app cut")
 	emit("tcp 10 app garbage")
